@@ -33,31 +33,34 @@ type CaseSpec struct {
 }
 
 type GenSpec struct {
-	Name string `json:"name"` // virtual package dir name under internal/zzgen
-	Spec string `json:"spec"` // spec file relative to the harness dir (or produced by SpecCmd)
-	SpecCmd []string `json:"spec_cmd"`
+	Name     string   `json:"name"` // virtual package dir name under internal/zzgen
+	Spec     string   `json:"spec"` // spec file relative to the harness dir (or produced by SpecCmd)
+	SpecCmd  []string `json:"spec_cmd"`
 	Features []string `json:"features"`
 }
 
 type UnitSpec struct {
-	Name     string                `json:"name"`
-	Pkg      string                `json:"pkg"`
-	Dir      string                `json:"dir"`
-	Harness  []string              `json:"harness"`
-	Gen      *GenSpec              `json:"gen"`
-	Cases    map[string][]CaseSpec `json:"cases"`
-	MaxPaths int                   `json:"max_paths"`
-	MaxSteps int64                 `json:"max_steps"`
-	Covers   []string              `json:"covers"` // labels that must be reached (default: all Cover() literals in the harness)
-	Tiers    []string              `json:"tiers"`  // tiers in which the unit runs (default both)
+	Name           string                `json:"name"`
+	Pkg            string                `json:"pkg"`
+	Dir            string                `json:"dir"`
+	Harness        []string              `json:"harness"`
+	Gen            *GenSpec              `json:"gen"`
+	Cases          map[string][]CaseSpec `json:"cases"`
+	MaxPaths       int                   `json:"max_paths"`
+	MaxSteps       int64                 `json:"max_steps"`
+	Covers         []string              `json:"covers"` // labels that must be reached (default: all Cover() literals in the harness)
+	Tiers          []string              `json:"tiers"`  // tiers in which the unit runs (default both)
+	Prefer         string                `json:"prefer"` // "" (pipe first) or a one-shot solver name tried first for hard arithmetic
+	PipeTimeoutMS  int                   `json:"pipe_timeout_ms"`
+	AssertTimeoutS int                   `json:"assert_timeout_s"`
 }
 
 type CheckSpec struct {
-	Property    string     `json:"property"`
-	Level       string     `json:"level"`
-	Units       []UnitSpec `json:"units"`
-	Assumptions []string   `json:"assumptions"`
-	OutOfClaim  string     `json:"out_of_claim"`
+	Property    string         `json:"property"`
+	Level       string         `json:"level"`
+	Units       []UnitSpec     `json:"units"`
+	Assumptions []string       `json:"assumptions"`
+	OutOfClaim  string         `json:"out_of_claim"`
 	Bounds      map[string]any `json:"bounds"`
 	TimeBudgetS map[string]int `json:"time_budget_s"`
 }
@@ -388,9 +391,19 @@ func runUnit(id, hdir, scratch string, u UnitSpec, o runOpts, listed map[string]
 	}
 
 	// static inventory of Cover labels and Assert messages in the harness
-	res.coverAll, res.assertAll = harnessInventory(main, u)
-
 	cases := expandCases(u.Cases[o.tier])
+	{
+		var roots []*ssa.Function
+		seenRoot := map[string]bool{}
+		for _, c := range cases {
+			name := c[0].(string)
+			if fn := main.Func(name); fn != nil && !seenRoot[name] {
+				seenRoot[name] = true
+				roots = append(roots, fn)
+			}
+		}
+		res.coverAll, res.assertAll = harnessInventory(main, roots)
+	}
 	type job struct {
 		name  string
 		entry *ssa.Function
@@ -435,7 +448,13 @@ func runUnit(id, hdir, scratch string, u UnitSpec, o runOpts, listed map[string]
 		go func() {
 			defer wwg.Done()
 			cfg := &Config{listedKnown: listed, assertTimeoutS: 60, crossCheck: o.tier == "thorough", maxViolPerSite: 1,
-				maxSteps: maxSteps, maxPaths: maxPaths, maxDepth: 400, pipeTimeoutMS: 10000, tier: o.tier, crossSolver: "z3"}
+				maxSteps: maxSteps, maxPaths: maxPaths, maxDepth: 400, pipeTimeoutMS: 10000, tier: o.tier, crossSolver: "z3", prefer: u.Prefer}
+			if u.PipeTimeoutMS > 0 {
+				cfg.pipeTimeoutMS = u.PipeTimeoutMS
+			}
+			if u.AssertTimeoutS > 0 {
+				cfg.assertTimeoutS = u.AssertTimeoutS
+			}
 			in := NewInterp(prog, cfg)
 			defer in.solver.Close()
 			if o.vector != "" {
@@ -499,7 +518,6 @@ type jobInfo struct {
 	args  []int
 }
 
-
 func writeOverlayJSON(path string, m map[string]string) {
 	type ovj struct {
 		Replace map[string]string
@@ -509,28 +527,41 @@ func writeOverlayJSON(path string, m map[string]string) {
 }
 
 // harnessInventory lists the literal labels of zzverif.Cover calls and the
-// messages of zzverif.Assert/Fail calls in the harness files of the package.
-func harnessInventory(pkg *ssa.Package, u UnitSpec) (covers, asserts []string) {
+// messages of zzverif.Assert calls in the harness functions statically
+// reachable from the entry functions this tier runs.
+func harnessInventory(pkg *ssa.Package, roots []*ssa.Function) (covers, asserts []string) {
 	seenC, seenA := map[string]bool{}, map[string]bool{}
-	var visit func(fn *ssa.Function)
 	visited := map[*ssa.Function]bool{}
+	var visit func(fn *ssa.Function)
 	visit = func(fn *ssa.Function) {
-		if visited[fn] {
+		if fn == nil || visited[fn] {
 			return
 		}
 		visited[fn] = true
 		pos := pkg.Prog.Fset.Position(fn.Pos())
-		if !strings.Contains(filepath.Base(pos.Filename), "zz_verif_") {
+		if fn.Pkg != pkg && (fn.Parent() == nil || fn.Parent().Pkg != pkg) {
+			return
+		}
+		if pos.IsValid() && !strings.Contains(filepath.Base(pos.Filename), "zz_verif_") {
 			return
 		}
 		for _, b := range fn.Blocks {
 			for _, instr := range b.Instrs {
+				if mc, ok := instr.(*ssa.MakeClosure); ok {
+					if f, ok := mc.Fn.(*ssa.Function); ok {
+						visit(f)
+					}
+				}
 				call, ok := instr.(ssa.CallInstruction)
 				if !ok {
 					continue
 				}
 				callee := call.Common().StaticCallee()
-				if callee == nil || callee.Pkg == nil || !strings.HasSuffix(callee.Pkg.Pkg.Path(), "/zzverif") {
+				if callee == nil {
+					continue
+				}
+				if callee.Pkg == nil || !strings.HasSuffix(callee.Pkg.Pkg.Path(), "/zzverif") {
+					visit(callee)
 					continue
 				}
 				args := call.Common().Args
@@ -556,8 +587,6 @@ func harnessInventory(pkg *ssa.Package, u UnitSpec) (covers, asserts []string) {
 						seenA[s] = true
 						asserts = append(asserts, s)
 					}
-				case "Fail":
-					// Fail sites are "must not be reached": not part of the reachability inventory
 				}
 			}
 		}
@@ -565,10 +594,8 @@ func harnessInventory(pkg *ssa.Package, u UnitSpec) (covers, asserts []string) {
 			visit(af)
 		}
 	}
-	for _, m := range pkg.Members {
-		if fn, ok := m.(*ssa.Function); ok {
-			visit(fn)
-		}
+	for _, r := range roots {
+		visit(r)
 	}
 	sort.Strings(covers)
 	sort.Strings(asserts)
